@@ -568,3 +568,26 @@ def r17_11(ctx):
 def r17_12(ctx):
     from .c04 import r04_18
     r04_18(ctx)
+
+
+@rule("R17.13", min_instances=2, desc="SplineMethod evaluates next/prev/offset operands with shifted copies of the states and controls only: an operand that depends on time or on a B-spline signal must be rejected (or get shifted copies of those too)")
+def r17_13(ctx):
+    """D88: `next(s) - s <= 1` on a B-spline variable became `0 <= 1`; `p <= 0.2*next(t)` used t_k."""
+    P = ctx.prog
+    f = P.own_method("SplineMethod", "grid_control")
+    sc = ctx.scope(f)
+    branch = [n_ for n_ in walk_no_nested(f.node) if isinstance(n_, ast.If) and "_offsets" in ast.unparse(n_.test)]
+    if not branch:
+        raise AnalysisError("SplineMethod.grid_control: the branch handling next/prev/offset symbols was not found")
+    b = branch[0]
+    subs = [c for c in ast.walk(b) if is_call_to(c, "substitute")]
+    if not subs:
+        raise AnalysisError("SplineMethod.grid_control: the operand substitution of the offset branch was not found")
+    text = ast.unparse(b)
+    for what, needle in (("time", "stage.t"), ("B-spline signals", "self.signals")):
+        guarded = any(isinstance(x, (ast.Raise, ast.Assert)) and (needle in " ".join(ast.unparse(t) for t, _ in sc.path_guards(x)) or (isinstance(x, ast.Assert) and needle in ast.unparse(x.test)))
+                      for x in ast.walk(b))
+        shifted = any(needle in ast.unparse(a) for c in subs for a in c.args[1:2])
+        ctx.check(guarded or shifted, "SplineMethod.grid_control: an offset operand that depends on %s is rejected or shifted" % what,
+                  detail="the operand of next/prev/offset is evaluated with %s of the current node: next(s) - s <= c becomes 0 <= c, p <= next(t) uses t_k" % what,
+                  expected="raise when depends_on(operand, %s), or shifted copies substituted like those of the states" % needle, found="neither in the offset branch", fi=f, node=b)
